@@ -21,8 +21,14 @@ EXPLANATION = (
     "R15.11 the session driver never asserts on session state (stack, saved P2SH stack, ...) - interactive commands can bring it into any shape. "
     "R15.12 every function that reads secp256k1_context_verify and is reachable from a tool's main is reached only while an ECCVerifyHandle "
     "is alive: a global object of that program holding one, or a holder function on every call path (call graph incl. constructors run by emplace_back / make_shared). "
-    "R15.9 no iterator into the temporary exec script is stored in the session. Not decided: heap overflows through computed "
-    "sizes, use-after-free in general, uninitialised reads other than R15.5, libsecp256k1/libreadline internals.")
+    "R15.9 no iterator into the temporary exec script is stored in the session. R15.13-R15.17 recursion guarded on a cut vertex, "
+    "constant subscripts within the size the path decided, iterator/container pairing, set-up status used, signing context created. "
+    "R15.18 no variable-length array sized by input. R15.19 a local char buffer read as a string is written on every path before. "
+    "R15.20 records kept by value in vectors initialise every scalar member in every constructor. R15.21 a function that aborts for "
+    "some enumerators of a parameter (switch ending in assert(false), assert(p == A || p == B)) is only called with the others: "
+    "G-SYM decides the argument on every path of the caller; obligations move through parameters handed on and members set only by "
+    "constructors. R15.22 the result of fopen is tested and not used on the null side. Not decided: heap overflows through computed "
+    "sizes, use-after-free in general, uninitialised reads other than R15.5 / R15.19 / R15.20, libsecp256k1/libreadline internals.")
 TRUSTED = ["clang 14 parser/Sema/CFG", "/verif extractor and engines", "libstdc++ / libsecp256k1 / libreadline as black boxes"]
 ASSUMPTIONS = ["allocation never fails", "explicit throw statements are the exception sources (libstdc++ precondition throws such as vector::at are inventoried, not armed)",
                "no function pointer is called other than through kerl registration or a global table initialiser"]
@@ -1460,6 +1466,173 @@ def run(ctx, anchors=None):
                  "the copy loads an indeterminate value (UBSan: load of value 3200171710, which is not a valid value for type 'opcodetype')" % ((rn, gaps[0][0], ", ".join(gaps[0][1]), rn) if gaps else (rn, "", "", rn)))
     ctx.floor("R15.20", n20, 1, "records stored by value in vectors")
 
+    # ---- R15.21 closed dispatch on an enum parameter: a function that aborts for some enumerators of a parameter (a `switch`
+    # whose default / fall-out is assert(false), an unconditional `assert(p == A || p == B)`) may only be called with the others.
+    # For every call site G-SYM enumerates the caller's paths: the argument is a constant, or the conditions decided before the
+    # call leave only accepted values; an argument that is the caller's own unassigned parameter makes that parameter closed in
+    # turn (the obligation moves to the caller's callers).
+    ctx.rule("R15.21", "a function that aborts for some enumerators of a parameter is only called with the others (decided on every path to the call)")
+    closed = closed_enum_params(fb)
+    work = list(closed.items())
+    done21 = set()
+    n21 = 0
+    skipped21 = []
+    while work:
+        (gid, pi), (enum, okv, why) = work.pop(0)
+        if (gid, pi) in done21:
+            continue
+        done21.add((gid, pi))
+        g = fb.funcs[gid]
+        allv = {c_["v"]: c_["n"] for c_ in enum["consts"]}
+        targets = {gid} | {b_ for b_ in g.d.get("overrides", [])}
+        for f in sorted(fb.funcs.values(), key=lambda f_: f_.id):
+            if f.body is None:
+                continue
+            calls = [n for n in f.nodes() if n["k"] in ("call", "mcall", "ctor") and n.get("cid") in targets and len(n.get("args", [])) > pi and n["args"][pi] is not None]
+            if not calls:
+                continue
+            if (f.file, f.line, gid, pi) in done21:
+                continue      # instantiations of one template
+            done21.add((f.file, f.line, gid, pi))
+            for cn in calls:
+                a = cn["args"][pi]
+                key = "closed-dispatch:%s(%s)@%s" % (g.name.split("(")[0].split("<")[0], g.params[pi]["n"], f.name.split("(")[0].split("<")[0])
+                cv = astq.const_value(a)
+                ctx.site()
+                if cv is not None:
+                    n21 += 1
+                    ctx.inst(cv in okv, "R15.21", key, f.loc(cn), "%s is passed %s, which %s handles" % (g.name, allv.get(cv, cv), g.name),
+                             "%s calls %s with %s = %s, for which %s" % (f.name, g.name, g.params[pi]["n"], allv.get(cv, cv), why))
+                    continue
+                a0 = a
+                while a0 is not None and a0.get("k") in ("cast", "paren"):
+                    a0 = a0["e"]
+                if len(f.nodes()) > 900:
+                    skipped21.append("%s: too large to enumerate" % f.name)
+                    continue
+                X = _sx.Explorer(prog, inline=lambda fn, n_: False, transparent=lambda n_: True)
+                try:
+                    outs = X.explore(f, this=("a", "this"), limit=600)
+                except _sx.Unsupported as e:
+                    skipped21.append("%s: %s" % (f.name, str(e)[:50]))
+                    continue
+                bad21 = None
+                passthrough = None
+                fieldflow = None
+                seen_call = 0
+                for o in outs:
+                    for e in o.events:
+                        if e.node is not cn or e.func is not f:
+                            continue
+                        seen_call += 1
+                        ts = e.terms[1:] if e.kind == "mcall" else e.terms
+                        if pi >= len(ts):
+                            continue
+                        t = ts[pi]
+                        feas = set(allv)
+                        if _sx.is_const(t):
+                            feas = {t[1]}
+                        else:
+                            for (c_, v_) in o.conds[:e.nconds]:
+                                if c_ == t:
+                                    feas = feas - {0} if v_ else feas & {0}
+                                elif isinstance(c_, tuple) and c_[0] == "eq" and t in c_[1:3]:
+                                    k_ = c_[2] if c_[1] == t else c_[1]
+                                    if _sx.is_const(k_):
+                                        feas = feas & {k_[1]} if v_ else feas - {k_[1]}
+                        if feas <= okv:
+                            continue
+                        if t[0] == "a" and any(p_["n"] == t[1] for p_ in f.params) and a0 is not None and a0.get("k") == "ref" and a0.get("dk") == "parm":
+                            passthrough = [i_ for i_, p_ in enumerate(f.params) if p_["n"] == t[1]][0]
+                            continue
+                        if t[0] == "f" and t[1] == ("a", "this") and f.rec:
+                            # a member set once, from a constructor parameter or a constant: the obligation moves to the constructors
+                            fld = t[2]
+                            ctors = [c_ for c_ in fb.funcs.values() if c_.rec == f.rec and c_.short == f.rec.split("::")[-1].split("<")[0] and c_.body is not None
+                                     and (c_.name.split("::")[0] == f.name.split("::")[0])]
+                            rewritten = [m_ for m_ in fb.funcs.values() if m_.rec == f.rec and m_.body is not None and m_ not in ctors and
+                                         any(x["k"] in ("bin", "opcall") and (x.get("op") or "").endswith("=") and x.get("op") not in ("==", "!=", "<=", ">=") and
+                                             (x.get("lhs") or (x.get("args") or [None])[0] or {}).get("k") == "mem" and (x.get("lhs") or x["args"][0]).get("n") == fld for x in m_.nodes())]
+                            srcs = []
+                            for c_ in ctors:
+                                ini = [i_ for i_ in c_.d.get("inits", []) if i_.get("field") == fld and i_.get("written")]
+                                e_ = ini[0]["e"] if ini else None
+                                while e_ is not None and e_.get("k") in ("cast", "paren"):
+                                    e_ = e_["e"]
+                                if e_ is not None and e_.get("k") == "ref" and e_.get("dk") == "parm":
+                                    srcs.append((c_, [i_ for i_, p_ in enumerate(c_.params) if p_["d"] == e_["d"]][0]))
+                                elif e_ is not None and astq.const_value(e_) is not None and astq.const_value(e_) in okv:
+                                    srcs.append((c_, None))
+                                else:
+                                    srcs = None
+                                    break
+                            if ctors and srcs is not None and not rewritten:
+                                fieldflow = (fld, srcs)
+                                continue
+                        bad21 = (_sx.show(t)[:50], sorted(allv[v_] for v_ in feas - okv))
+                if not seen_call:
+                    skipped21.append("%s: the call is on no enumerated path" % f.name)
+                    continue
+                n21 += 1
+                if fieldflow is not None and bad21 is None:
+                    ctx.ok("R15.21", key, f.loc(cn), "%s passes the member `%s`, which only the constructors set (from a parameter or an accepted constant): the obligation moves to the constructors' callers" % (f.name, fieldflow[0]))
+                    for (c_, i_) in fieldflow[1]:
+                        if i_ is not None:
+                            work.append(((c_.id, i_), (enum, okv, why + " (through the member %s)" % fieldflow[0])))
+                    continue
+                if passthrough is not None and bad21 is None:
+                    ctx.ok("R15.21", key, f.loc(cn), "%s hands its own parameter `%s` on: the obligation moves to its callers" % (f.name, f.params[passthrough]["n"]))
+                    work.append(((f.id, passthrough), (enum, okv, why + " (through %s)" % f.name.split("(")[0])))
+                    continue
+                ctx.inst(bad21 is None, "R15.21", key, f.loc(cn),
+                         "on every path of %s to the call, %s is one of %s" % (f.name, g.params[pi]["n"], ", ".join(sorted(allv[v_] for v_ in okv))),
+                         "%s calls %s with %s = `%s`, which the path leaves free to be %s: %s" % ((f.name, g.name, g.params[pi]["n"], bad21[0], " / ".join(bad21[1]), why) if bad21 else (f.name, g.name, "", "", "", "")))
+    ctx.extra["R15.21_closed_parameters"] = sorted("%s(%s)" % (fb.funcs[k_[0]].name.split("(")[0], fb.funcs[k_[0]].params[k_[1]]["n"]) for k_ in closed)
+    ctx.extra["R15.21_not_explored"] = sorted(set(skipped21))
+    ctx.floor("R15.21", len(closed), 1, "functions aborting for some enumerators of a parameter")
+    ctx.floor("R15.21", n21, 2, "call sites of such functions")
+
+    # ---- R15.22 a stream that could not be opened is not used: fopen returns null for a path that cannot be opened (a read-only
+    # working directory for the history file, a missing data set); every use of the result lies on the non-null side of a test.
+    ctx.rule("R15.22", "the result of fopen is tested, and not used on the null side")
+    from .common import call_result_edges
+    n22 = 0
+    for f in sorted(fb.funcs.values(), key=lambda f_: f_.id):
+        if f.body is None or not auth(f) or (f.file, f.line, "R15.22") in done21:
+            continue
+        opens = [n for n in f.nodes() if n["k"] == "call" and n.get("n") in ("fopen", "fdopen", "popen", "freopen")]
+        if not opens:
+            continue
+        done21.add((f.file, f.line, "R15.22"))
+        fcfg = f.cfg()
+        for cn in opens:
+            n22 += 1
+            ctx.site()
+            succ, fail = call_result_edges(f, fcfg, cn)
+            holder = None
+            for n in f.nodes():
+                if n["k"] == "decl":
+                    for d in n["decls"]:
+                        if d.get("init") is cn:
+                            holder = d["d"]
+                if n["k"] == "assign" and n["rhs"] is cn and n["lhs"].get("k") == "ref":
+                    holder = n["lhs"].get("d")
+            why22 = None
+            if fail is None:
+                why22 = "its result is never compared with null"
+            elif holder is not None:
+                nullside = fcfg.reachable_from(fail)
+                for n in f.nodes():
+                    if n["k"] == "ref" and n.get("d") == holder:
+                        par = f.parent(n)
+                        pos = fcfg.position(n)
+                        if par is not None and par.get("k") in ("call", "mcall") and pos is not None and pos[0] in nullside:
+                            why22 = "`%s` at line %s uses it where the test found it null" % (astq.estr(par)[:50], n.get("l"))
+            ctx.inst(why22 is None, "R15.22", "stream-opened:%s@%s" % (astq.estr(cn["args"][0])[:30] if cn.get("args") else "?", f.name), f.loc(cn),
+                     "the stream is used only where the open succeeded",
+                     "%s opens %s and %s: when the path cannot be opened (read-only directory, missing file) the null stream is handed to the C library - segmentation fault" % (f.name, astq.estr(cn["args"][0])[:40] if cn.get("args") else "?", why22))
+    ctx.floor("R15.22", n22, 2, "fopen call sites in btcdeb-authored code")
+
     # ---------------------------------------------------------------- R15.9
     ev = fb.fn("Instance::eval", file="instance.cpp")
     opstep = fb.fn("StepScript", file="script/interpreter.cpp")
@@ -1487,6 +1660,97 @@ def run(ctx, anchors=None):
         ctx.inst(guarded, "R15.9", "iterator-store:%s" % astq.estr(sn["args"][0]), opstep.loc(sn),
                  "the iterator is stored in the session only when the step runs on the session's own script",
                  "`%s` stores an iterator into the script being stepped; under `exec` that script is a temporary of Instance::eval, so the session keeps a dangling iterator (used by the next signature check)" % astq.estr(sn))
+
+
+def closed_enum_params(fb):
+    """{(function id, parameter index): (enum record, accepted values, why)} - parameters of a small enum type for some of whose
+    enumerators every path of the function ends in abort / a failed assertion:
+      * `switch (p)` that every path to the function's exit passes, where the label (or the default / the fall-out) a value goes
+        to cannot reach the exit or an exit() call;
+      * an assertion every path passes whose condition is p == A || p == B ... ."""
+    from ..cfg import CFG
+    out = {}
+    seen = set()
+    for f in fb.funcs.values():
+        if f.body is None or not f.d.get("cfg") or (f.file, f.line) in seen:
+            continue
+        enum_params = []
+        for i, p_ in enumerate(f.params):
+            es = [e for e in fb.enums if e["name"] == (p_.get("ct") or "").split("::")[-1] and 2 <= len(e["consts"]) <= 8]
+            if es and not (p_.get("ty") or "").rstrip().endswith(("&", "*")):
+                enum_params.append((i, p_, es[0]))
+        if not enum_params:
+            continue
+        seen.add((f.file, f.line))
+        cfg = None
+        for (i, p_, enum) in enum_params:
+            def is_p(e, d=p_["d"]):
+                while e is not None and e.get("k") in ("cast", "paren"):
+                    e = e["e"]
+                return e is not None and e.get("k") == "ref" and e.get("dk") == "parm" and e.get("d") == d
+            if any((n["k"] == "bin" and n["op"].endswith("=") and n["op"] not in ("==", "!=", "<=", ">=") and is_p(n["lhs"])) or
+                   (n["k"] == "un" and n["op"] == "&" and is_p(n["e"])) for n in f.nodes()):
+                continue      # re-assigned: the value at the dispatch is not the argument
+            allv = {c_["v"] for c_ in enum["consts"]}
+            cfg = cfg or CFG(f)
+            abort_blocks = {b for b, blk in cfg.blocks.items() if blk.get("noret") and
+                            any((f.node_by_id(x) or {}).get("k") == "call" and (f.node_by_id(x) or {}).get("n") in ("abort", "__assert_fail") for x in blk["el"])}
+            other_noret = {b for b, blk in cfg.blocks.items() if blk.get("noret")} - abort_blocks
+
+            def aborting(b):
+                r = cfg.reachable_from(b, removed_blocks=abort_blocks - {b}) if b not in abort_blocks else {b}
+                return b in abort_blocks or (cfg.exit not in r and not (r & other_noret) and
+                                             any(s_ in abort_blocks for x in r for s_ in cfg.succs(x)))
+            for sw in S.find_switches(f, lambda n: is_p(n["cond"])):
+                ids = {x["id"] for x in walk(sw)}
+                label_blocks = {blk["label"]: b for b, blk in cfg.blocks.items() if blk.get("label") in ids}
+                heads = [b for b, blk in cfg.blocks.items() if blk.get("term") == sw["id"]]
+                if not heads or not cfg.must_pass_from_block(cfg.entry, [sw["cond"]]):
+                    continue
+                goes = {}
+                dflt = None
+                for grp in S.case_groups(sw):
+                    if grp.switch is not sw:
+                        continue
+                    blks = [label_blocks[l[2]["id"]] for l in grp.labels if l[2]["id"] in label_blocks]
+                    if not blks:
+                        continue
+                    for (_nm, v, _n) in grp.labels:
+                        if v == "default":
+                            dflt = blks[0]
+                        else:
+                            goes[v] = blks[0]
+                if dflt is None:
+                    fall = [s_ for s_ in cfg.succs(heads[0]) if s_ not in label_blocks.values()]
+                    dflt = fall[0] if fall else None
+                okv = set()
+                for v in allv:
+                    b = goes.get(v, dflt)
+                    if b is None or not aborting(b):
+                        okv.add(v)
+                if okv != allv and okv:
+                    out[(f.id, i)] = (enum, okv, "the switch of %s at %s ends in assert(false) / abort()" % (f.name.split("(")[0], f.loc(sw)))
+            for n in f.nodes():
+                if n["k"] == "cond" and any(x["k"] == "call" and x.get("n") == "__assert_fail" for x in walk(n)):
+                    def disj(e):
+                        while e is not None and e.get("k") in ("cast", "paren"):
+                            e = e["e"]
+                        if e is not None and e.get("k") == "bin" and e.get("op") == "||":
+                            return disj(e["lhs"]) + disj(e["rhs"])
+                        return [e]
+                    names = set()
+                    for d_ in disj(n["cond"]):
+                        one = S.compared_enumerators(d_, is_p) if d_ is not None else None
+                        if not one:
+                            names = None
+                            break
+                        names |= one
+                    if names and cfg.must_pass_from_block(cfg.entry, list(walk(n["cond"]))):
+                        okv = {c_["v"] for c_ in enum["consts"] if any(q.split("::")[-1] == c_["n"] for q in names)}
+                        if okv and okv != allv:
+                            prev = out.get((f.id, i))
+                            out[(f.id, i)] = (enum, okv & prev[1] if prev else okv, "%s asserts `%s` at %s" % (f.name.split("(")[0], astq.estr(n["cond"])[:60], f.loc(n)))
+    return out
 
 
 def upper_bound_from_guard(cn, t, vtxt):
@@ -1674,6 +1938,10 @@ def callers_establish(fb, prog, ctor, a, K):
 
 
 MUTANTS = [
+    dict(name="sighash-for-any-script-version", file="instance.cpp", find="    if (sigver != SigVersion::TAPROOT && sigver != SigVersion::TAPSCRIPT) {\n        fprintf(stderr, \"error: the output being spent is not a taproot output", replace="    if (false) {\n        fprintf(stderr, \"error: the output being spent is not a taproot output", expect=["R15.21:closed-dispatch:SignatureHashSchnorr(sigversion)@Instance::calc_sighash"]),
+    dict(name="checker-built-to-assert-on-missing-data", file="instance.cpp", find="txdata, MissingDataBehavior::FAIL);", replace="txdata, MissingDataBehavior::ASSERT_FAIL);", expect=["R15.21:closed-dispatch:GenericTransactionSignatureChecker(mdb)@Instance::setup_environment"]),
+    dict(name="history-stream-unchecked", file="kerl/kerl.c", find="    if (fp) {\n      fprintf(fp,", replace="    {\n      fprintf(fp,", expect=["R15.22:stream-opened:history_file@kerl_add_history"]),
+    dict(name="urandom-stream-used-when-null", file="value.cpp", find="    if (!f) {\n        fprintf(stderr, \"unable to open /dev/urandom", replace="    if (!f && num > 64) {\n        fprintf(stderr, \"unable to open /dev/urandom", expect=["R15.22:stream-opened:\"/dev/urandom\"@GetRandBytes"]),
     dict(name="token-sized-stack-array", file="instance.cpp", find="            if (std::to_string(n) == v) {", replace="            char nbuf[vlen + 1];\n            snprintf(nbuf, vlen + 1, \"%d\", n);\n            if (!strcmp(nbuf, v)) {", expect=["R15.18:vla:nbuf@Instance::eval"]),
     dict(name="hashtype-buffer-uninitialised", file="debugger/interpreter.h", find="    char buf[100] = \" \"; // the names are joined with blanks; the leading one is skipped below", replace="    char buf[100];", expect=["R15.19:buffer-written-before-read:buf@hashtype_str"]),
     dict(name="value-member-without-initialiser", file="value.h", find="    opcodetype opcode = OP_0;", replace="    opcodetype opcode;", expect=["R15.20:members-initialised:Value"]),
@@ -1691,7 +1959,6 @@ MUTANTS = [
     dict(name="listing-limit-grows-with-offset", file="btcdeb.cpp", find="snprintf(pbuf, sizeof(buf) - (pbuf - buf), \"%s\", GetOpName", replace="snprintf(pbuf, sizeof(buf) + pbuf - buf, \"%s\", GetOpName", expect=["R15.4:bounded-write:snprintf@main"]),
     dict(name="listing-limit-ignores-offset", file="btcdeb.cpp", find="snprintf(pbuf, sizeof(buf) - (pbuf - buf), \"%s\", HexStr", replace="snprintf(pbuf, sizeof(buf), \"%s\", HexStr", expect=["R15.4:bounded-write:snprintf@main"]),
     dict(name="format-buffer-too-small", file="functions.cpp", find="    snprintf(lfmt, 15, ", replace="    snprintf(lfmt, 16, ", expect=["R15.4:bounded-write:snprintf@print_dualstack"]),
-    dict(name="eval-number-buffer-off-by-one", file="instance.cpp", find="            snprintf(buf, vlen + 1, \"%d\", n);", replace="            snprintf(buf, vlen + 2, \"%d\", n);", expect=["R15.4:bounded-write:snprintf@Instance::eval"]),
     dict(name="empty-transaction-accepted", file="instance.cpp", find="    if (tx->vin.empty()) {\n        fprintf(stderr, \"error: the transaction has no inputs\\n\");\n        return false;\n    }\n", replace="", expect=["R15.3:transaction-has-an-input"]),
     dict(name="verify-context-not-created-in-btcc", file="value.cpp", find="    static ECCVerifyHandle verify_handle;\n", replace="", expect=["R15.12:verify-context@btcc.cpp"]),
     dict(name="p2sh-empty-stack-assert", file="debugger/interpreter.cpp", find="            if (env.p2shstack.empty())\n                return set_error(serror, SCRIPT_ERR_INVALID_STACK_OPERATION);\n", replace="            assert(!env.p2shstack.empty());\n", expect=["R15.11:assert@"]),
